@@ -29,7 +29,9 @@ def isException : Exc → Bool
   | .genExit => false
   | .cancelled _ => false
   | .syncAbort => false
-  | .other 3 => false          -- BE: a KeyboardInterrupt-like BaseException
+  | .other 3 => false
+  | .other 5 => false         -- KeyboardInterrupt
+  | .other 6 => false         -- SystemExit          -- BE: a KeyboardInterrupt-like BaseException
   | _ => true
 
 def Catch.catches : Catch → Exc → Bool
